@@ -127,6 +127,20 @@ fn format_osc8_hyperlink(url: &str, text: &str) -> String {
     )
 }
 
+// Verification hooks (compiled only with --cfg dandavison_delta_verif).
+#[cfg(dandavison_delta_verif)]
+pub fn verif_commit_hash_spans(line: &str) -> Vec<(usize, usize)> {
+    COMMIT_HASH_REGEX
+        .find_iter(line)
+        .map(|m| (m.start(), m.end()))
+        .collect()
+}
+
+#[cfg(dandavison_delta_verif)]
+pub fn verif_format_osc8_hyperlink(url: &str, text: &str) -> String {
+    format_osc8_hyperlink(url, text)
+}
+
 #[cfg(not(target_os = "windows"))]
 #[cfg(test)]
 pub mod tests {
